@@ -2811,6 +2811,11 @@ func hijackConnHandler(ctx *RequestCtx, r io.Reader, c net.Conn, s *Server, h Hi
 	if !s.KeepHijackedConns {
 		c.Close()
 		s.releaseHijackConn(hjc)
+	} else if _, ok := r.(*bufio.Reader); ok && ctx.fbr.c != nil {
+		// With ReduceMemoryUsage the buffered reader kept by the escaped
+		// connection still reads through ctx.fbr, so ctx must not be reset
+		// or pooled.
+		return
 	}
 	s.releaseCtx(ctx)
 }
